@@ -33,5 +33,6 @@ for m in repo.modules.values():
                "static": any(getattr(d, "id", "") == "staticmethod" for d in fi.node.decorator_list)}
         sigs.setdefault(fi.node.name, []).append(sig)
         funcs.setdefault(m.relpath, []).append(fi.qualname)
-json.dump({"consts": consts, "sigs": sigs, "functions": funcs, "conflicts": sorted(conflicts)}, open(PINNED_PATH, "w"), indent=0, sort_keys=True)
+assigns = {m.relpath: sorted(m.assigns) for m in repo.modules.values() if m.assigns}
+json.dump({"consts": consts, "sigs": sigs, "functions": funcs, "conflicts": sorted(conflicts), "assigns": assigns}, open(PINNED_PATH, "w"), indent=0, sort_keys=True)
 print(len(consts), "constants,", len(sigs), "function names,", sum(len(v) for v in funcs.values()), "functions; conflicts:", sorted(conflicts))
